@@ -193,7 +193,9 @@ def replay_case(c):
                 rows = [[dict(r) for r in res] for res in ds.res_iter]
                 desc = ds.dp.descriptor
             except Exception as e:
-                return dict(ok=False, why='a program the model considers well-typed raised %s: %s' % (type(e).__name__, str(e)[:200]), drift=True)
+                # every step's precondition (Typing!Enabled) holds and the input conforms: the pipeline has to run (on the current tree
+                # every program of the model's universe does, in both tiers and under every seed tried)
+                return dict(ok=False, why='a pipeline of built-in steps over conforming data raised %s: %s' % (type(e).__name__, str(getattr(e, 'cause', e))[:200]))
             problems = check_output(rows, desc)
             try:
                 Flow(*[list(map(dict, x)) for x in srcs], *links()).results()
